@@ -324,8 +324,9 @@ func (h *c14History) variant(e *c14Ev, kind string) string {
 // scenario builder -------------------------------------------------------------------------
 
 type c14Builder struct {
-	spec c14Spec
-	idx  map[string]int
+	spec  c14Spec
+	idx   map[string]int
+	other *c14Ev // the event a misbehaving provider answers with instead of the requested one
 }
 
 func newC14Builder(op, ver string) *c14Builder {
@@ -370,6 +371,9 @@ func (b *c14Builder) script(h *c14History, id string, orig *c14Ev, mode string) 
 	other := []int{b.t(h.room.evs[0].text)}
 	if orig == h.room.evs[0] {
 		other = []int{b.t(h.room.evs[1].text)}
+	}
+	if b.other != nil && b.other != orig {
+		other = []int{b.t(b.other.text)}
 	}
 	var as [][]int
 	switch mode {
@@ -688,8 +692,10 @@ func (h *c14History) allEvents() []*c14Ev {
 // every provider behaviour (the others answer with the original event)
 func (g *c14Gen) genChain(h *c14History) {
 	c, ver := g.c, string(h.room.ver)
+	var other *c14Ev
 	mk := func(e *c14Ev, kind string, modes map[*c14Ev]string, dflt string) *c14Builder {
 		b := newC14Builder("chain", ver)
+		b.other = other
 		t := e.text
 		if kind != "" {
 			t = h.variant(e, kind)
@@ -723,14 +729,30 @@ func (g *c14Gen) genChain(h *c14History) {
 				g.run(mk(e, "", map[*c14Ev]string{x: m}, "orig"), fmt.Sprintf("chain v%s %s: %s=%s", ver, e.name, x.name, m))
 			}
 		}
-		for i := 0; i < c.Scale(3, 20); i++ {
+		for i := 0; i < c.Scale(6, 30); i++ {
 			modes := map[*c14Ev]string{}
 			for _, x := range anc {
 				if c.Rng.Intn(3) == 0 {
 					modes[x] = c14ChainModes[c.Rng.Intn(len(c14ChainModes))]
 				}
 			}
-			g.run(mk(e, "", modes, "orig"), fmt.Sprintf("chain v%s %s random provider", ver, e.name))
+			// the provider's wrong answers are an event with auth events of its own, so that an
+			// event can reach the stack twice
+			other = h.room.evs[c.Rng.Intn(len(h.room.evs))]
+			g.run(mk(e, "", modes, "orig"), fmt.Sprintf("chain v%s %s random provider, other=%s", ver, e.name, other.name))
+			other = nil
+		}
+		// two auth events answered with the same third event whose own auth event is unavailable
+		if len(e.auth) >= 2 {
+			for _, o := range h.room.evs {
+				if len(o.auth) == 0 || o == e.auth[0] || o == e.auth[1] || c.Rng.Intn(3) != 0 {
+					continue
+				}
+				other = o
+				g.run(mk(e, "", map[*c14Ev]string{e.auth[0]: "diff_once", e.auth[1]: "diff_once", o.auth[len(o.auth)-1]: "nothing"}, "orig"),
+					fmt.Sprintf("chain v%s %s: two answers are %s", ver, e.name, o.name))
+				other = nil
+			}
 		}
 	}
 }
@@ -957,6 +979,23 @@ func (g *c14Gen) genLoad(h *c14History) {
 
 func (g *c14Gen) genBackfill(h *c14History) {
 	c, ver := g.c, string(h.room.ver)
+	// the same events from several servers (honest providers): every event is returned once
+	for _, limit := range []int{100, len(h.room.evs), len(h.room.evs) + 1, 3} {
+		b := newC14Builder("bf", ver)
+		b.spec.Servers = []string{"s0", "s1", "s2"}
+		var all, some []int
+		for i, e := range h.room.evs {
+			all = append(all, b.t(e.text))
+			if i%2 == 0 {
+				some = append(some, b.t(e.text))
+			}
+			b.sp(h, e.text, e, "exact", "proper")
+			b.script(h, e.id, e, "orig")
+		}
+		b.spec.BF = []c14BF{{Server: "s0", PDUs: some}, {Server: "s1", PDUs: all}, {Server: "s2", PDUs: all}}
+		b.spec.From, b.spec.Limit = []string{h.room.evs[len(h.room.evs)-1].id}, limit
+		g.run(b, fmt.Sprintf("bf v%s same events from three servers limit=%d", ver, limit))
+	}
 	for i := 0; i < c.Scale(60, 600); i++ {
 		b := newC14Builder("bf", ver)
 		ns := c.Rng.Intn(4)
